@@ -175,6 +175,8 @@ func newGSUB(table tables.Layout) (GSUB, error) {
 			switch subtable := subtable.(type) {
 			case tables.MultipleSubs:
 				err = subtable.Sanitize()
+			case tables.AlternateSubs:
+				err = subtable.Sanitize()
 			case tables.LigatureSubs:
 				err = subtable.Sanitize()
 			case tables.ContextualSubs:
@@ -231,6 +233,8 @@ func newGPOS(table tables.Layout) (GPOS, error) {
 			case tables.SinglePos:
 				err = subtable.Sanitize()
 			case tables.PairPos:
+				err = subtable.Sanitize()
+			case tables.CursivePos:
 				err = subtable.Sanitize()
 			case tables.MarkBasePos:
 				err = subtable.Sanitize()
